@@ -78,10 +78,18 @@ func genArgs(t *rapid.T, label string, minLen int) []model.B {
 		base := rapid.IntRange(minLen, 40).Draw(t, label+"_len")
 		big := rapid.SampledFrom([]int{-1, 0, n / 2, n - 1}).Draw(t, label+"_bigidx")
 		tile := rapid.SliceOfN(genByteIn(alphaASCII), 1, 4).Draw(t, label+"_tile")
+		// sparse: every argument as short as allowed (many arguments, little text)
+		sparse := rapid.IntRange(0, 2).Draw(t, label+"_sparse") == 0
 		for i := range args {
 			l := minLen + (base+i)%7
+			if sparse {
+				l = minLen
+			}
 			if i == big {
 				l = 255
+				if sparse {
+					l = minLen + base%3
+				}
 			}
 			b := make([]byte, l)
 			for j := range b {
